@@ -302,7 +302,8 @@ def dispatch_scenario(ctx, nops, first, max_resp=2, rich=True):
                 if variant == 1:
                     kw['src_id'] = sender_a
                 if variant == 2:
-                    kw['arg_template'] = [7]
+                    # a literal template; a falsy literal (0) is a literal like any other, only None is the wildcard
+                    kw['arg_template'] = [0] if idx % 2 == 0 else [7]
                 ctor = rpd.OscFunc if op == 'new_exact' else rpd.OscFunc.matching
                 obj = ctor(mk(idx), path, **kw)
                 resp.append(dict(obj=obj, path=path, matching=(op == 'new_match'), src=kw.get('src_id'),
@@ -334,7 +335,7 @@ def dispatch_scenario(ctx, nops, first, max_resp=2, rich=True):
                     if r['src'] is not None and snd is not r['src']:
                         continue
                     if r['tmpl'] is not None:
-                        if not (arg == 7):       # forks in the solver for a symbolic argument
+                        if not (arg == r['tmpl'][0]):       # forks in the solver for a symbolic argument
                             continue
                     expect.append(k)
                 got = [f[0] for f in fired]
